@@ -17,7 +17,7 @@ LIT = {
     "int": dict(fallback="5", cond="11", setv="10", wsetv="3", lo="1", hi="10", users=[NOVAL, "3", "100", "5", "-1"], src=("3", "100"), bnd=("10", "5")),
     "hex": dict(fallback="0x5", cond="0x21", setv="0xff", wsetv="0x3", lo="0x1", hi="0x20", users=[NOVAL, "0x1F", "1f", "0x5", "0xff"], src=("0x3", "0xff"), bnd=("0x20", "0x10")),
     "float": dict(fallback="5.0", cond="11.5", setv="10.0", wsetv="3.25", lo="1.5", hi="10.0", users=[NOVAL, "3", "100.5", "5", "-0.5", "2.5e16", "1e-7"], src=("3.25", "100.5"), bnd=("10.0", "7")),
-    "string": dict(fallback="fb", cond="cd", setv="forced", wsetv="weak", users=[NOVAL, "", "fb", "x", 'q"z', "n"], src=("sv", "zz")),
+    "string": dict(fallback="fb", cond="cd", setv="forced", wsetv="weak", users=[NOVAL, "", "fb", "x", 'q"z', "n", "a\x0cb", "# CONFIG_U1 is not set"], src=("sv", "zz")),
 }
 
 
@@ -388,7 +388,7 @@ def nest_lattice():
     kinds = ["menu_dep", "menu_vis", "menu_both", "if"]
     chains = [()] + [(a,) for a in kinds] + list(itertools.product(kinds, kinds))
     for chain in chains:
-        for typ in ("bool", "int"):
+        for typ in ("bool", "int", "intclamp"):
             ents, order, vars_ = [], [], []
             gates = []
             for lvl, k in enumerate(chain):
@@ -403,9 +403,12 @@ def nest_lattice():
             if typ == "bool":
                 t = mk_config("T", "bool", prompt=Y, defaults=[{"v": Y, "c": Y}])
                 tc = [NOVAL, "n", "y"]
-            else:
+            elif typ == "int":
                 t = mk_config("T", "int", prompt=Y, defaults=[{"v": C("5"), "c": Y}], ranges=[{"lo": C("1"), "hi": C("10"), "c": Y}])
                 tc = [NOVAL, "3", "100"]
+            else:  # a default outside the range: clamped wherever the option sits, shown or not
+                t = mk_config("T", "int", prompt=Y, defaults=[{"v": C("100"), "c": Y}], ranges=[{"lo": C("1"), "hi": C("10"), "c": Y}])
+                tc = [NOVAL, "3"]
             u = gate("U", "n")
             u["selects"].append({"t": "T2", "c": Y})
             u["sets"].append({"t": "T3", "v": C("7"), "c": Y, "str": False})
@@ -436,6 +439,55 @@ def nest_lattice():
             vars_.append({"n": "T2", "kind": "sym", "cands": [NOVAL, "n"]})
             vars_.append({"n": "T3", "kind": "sym", "cands": [NOVAL, "2"]})
             out.append({"prog": ents, "ord": order, "vars": vars_, "family": "F-nest", "point": dict(chain=list(chain), type=typ)})
+    out += implicit_lattice()
+    return out
+
+
+def implicit_lattice():
+    """An option A directly followed by a block that depends on it (`if A`, a menu with `depends on A`, an option with
+    `depends on A`): the tool files the block under A in the menu tree.  What the enclosing menus contribute
+    (`visible if`, dependencies) must reach the options inside the block all the same."""
+    out = []
+    for outer, inner, typ in itertools.product(("vis", "vis_in_plain", "plain_in_vis", "dep"), ("if", "ifand", "menu", "dep", "if_in_if"), ("bool", "int")):
+        ents, order, vars_ = [], [], []
+        for g in ("GV", "GD"):
+            ents.append(gate(g))
+            order.append(["s", g])
+            vars_.append({"n": g, "kind": "sym", "cands": [NOVAL, "n"]})
+        a = gate("A")
+        if typ == "bool":
+            t = mk_config("T", "bool", prompt=Y, defaults=[{"v": N, "c": Y}])
+            tc = [NOVAL, "y"]
+        else:
+            t = mk_config("T", "int", prompt=Y, defaults=[{"v": C("3"), "c": Y}], ranges=[{"lo": C("0"), "hi": C("100"), "c": Y}])
+            tc = [NOVAL, "7"]
+        if inner == "if":
+            blk = [{"k": "if", "c": S("A"), "children": [t]}]
+        elif inner == "ifand":
+            blk = [{"k": "if", "c": ["&&", S("A"), S("GD")], "children": [t]}]
+        elif inner == "menu":
+            blk = [{"k": "menu", "title": "under A", "dep": S("A"), "visif": Y, "children": [t]}]
+        elif inner == "if_in_if":
+            blk = [{"k": "if", "c": S("A"), "children": [{"k": "if", "c": S("GD"), "children": [t]}]}]
+        else:
+            t["dep"] = S("A")
+            blk = [t]
+        tail = mk_config("C", "bool", prompt=Y)
+        body = [a] + blk + [tail]
+        if outer == "vis":
+            node = [{"k": "menu", "title": "m", "dep": Y, "visif": S("GV"), "children": body}]
+        elif outer == "vis_in_plain":
+            node = [{"k": "menu", "title": "outer", "dep": Y, "visif": Y, "children": [{"k": "menu", "title": "m", "dep": Y, "visif": S("GV"), "children": body}]}]
+        elif outer == "plain_in_vis":
+            node = [{"k": "menu", "title": "outer", "dep": Y, "visif": S("GV"), "children": [{"k": "menu", "title": "m", "dep": Y, "visif": Y, "children": body}]}]
+        else:
+            node = [{"k": "menu", "title": "m", "dep": S("GV"), "visif": Y, "children": body}]
+        ents += node
+        order += [["s", "A"], ["s", "T"], ["s", "C"]]
+        vars_.append({"n": "A", "kind": "sym", "cands": [NOVAL, "n"]})
+        vars_.append({"n": "T", "kind": "sym", "cands": tc})
+        vars_.append({"n": "C", "kind": "sym", "cands": [NOVAL, "y"]})
+        out.append({"prog": ents, "ord": order, "vars": vars_, "family": "F-nest", "point": dict(implicit=inner, outer=outer, type=typ)})
     return out
 
 
@@ -505,6 +557,49 @@ def choice_lattice():
         ents.append(mk_config("OBS", "int", prompt=None, defaults=[{"v": C("1"), "c": S("M1")}, {"v": C("4"), "c": S("M4")}, {"v": C("0"), "c": Y}]))
         order.append(["s", "OBS"])
         out.append({"prog": ents, "ord": order, "vars": vars_, "family": "F-choice", "point": dict(members=list(pat), defaults=dflt, twice=True, dep2=dep2)})
+    # ... and a second definition without any member that only brings a default ("a component overrides the default
+    # selection"), before or after the definition with the members
+    for pat, dflt, dep2, first in itertools.product(member_pats[:4], (0, 1), (0, 1), (0, 1)):
+        ents, order, vars_ = [], [], []
+        for g in ("G", "G2", "D"):
+            ents.append(gate(g))
+            order.append(["s", g])
+            vars_.append({"n": g, "kind": "sym", "cands": [NOVAL, "n"]})
+        mem = [mk_config("M%d" % (k + 1), "bool", prompt=(S("G") if p else Y)) for k, p in enumerate(pat)]
+        ch1 = {"k": "choice", "id": "CH", "title": "ch", "prompt": [Y], "dep": Y, "defaults": ([{"m": "M2", "c": S("G")}] if dflt else []), "children": mem}
+        ch2 = {"k": "choice", "id": "CH", "title": "ch", "prompt": [], "dep": (S("D") if dep2 else Y), "defaults": [{"m": "M3", "c": S("G2")}], "children": []}
+        ents += [ch2, ch1] if first else [ch1, ch2]
+        order.append(["ch", "CH"])
+        order += [["s", "M%d" % k] for k in (1, 2, 3)]
+        vars_.append({"n": "CH", "kind": "choice", "cands": [NOVAL, "M1", "M2"]})
+        ents.append(mk_config("OBS", "int", prompt=None, defaults=[{"v": C("1"), "c": S("M1")}, {"v": C("3"), "c": S("M3")}, {"v": C("0"), "c": Y}]))
+        order.append(["s", "OBS"])
+        out.append({"prog": ents, "ord": order, "vars": vars_, "family": "F-choice", "point": dict(members=list(pat), defaults=dflt, twice="memberless", dep2=dep2, first=first)})
+    out += twochoice_lattice()
+    return out
+
+
+def twochoice_lattice():
+    """Two choices, one depending on a member of the other (directly or through an option without a prompt), in
+    either order of definition: loading, resolving and writing must not depend on which of them the file names first."""
+    out = []
+    for fwd, via, dflt, gated in itertools.product((0, 1), (0, 1, 2), (0, 1), (0, 1)):
+        ents, order, vars_ = [], [], []
+        ents.append(gate("G"))
+        order.append(["s", "G"])
+        vars_.append({"n": "G", "kind": "sym", "cands": [NOVAL, "n"]})
+        bm = [mk_config("B1", "bool", prompt=Y), mk_config("B2", "bool", prompt=(S("G") if gated else Y))]
+        chb = {"k": "choice", "id": "CHB", "title": "b", "prompt": [Y], "dep": Y, "defaults": [], "children": bm}
+        hb = mk_config("HB", "bool", prompt=None, defaults=[{"v": Y, "c": S("B2")}])
+        dep = {0: S("B2"), 1: S("HB"), 2: ["!", S("B1")]}[via]
+        am = [mk_config("A1", "bool", prompt=Y), mk_config("A2", "bool", prompt=Y)]
+        cha = {"k": "choice", "id": "CHA", "title": "a", "prompt": [Y], "dep": dep, "defaults": ([{"m": "A2", "c": Y}] if dflt else []), "children": am}
+        obs = mk_config("OBSV", "int", prompt=Y, defaults=[{"v": C("1"), "c": S("A1")}, {"v": C("2"), "c": S("A2")}, {"v": C("0"), "c": Y}])
+        ents += [cha, hb, chb, obs] if fwd else [chb, hb, cha, obs]
+        order += [["ch", "CHB"], ["s", "B1"], ["s", "B2"], ["s", "HB"], ["ch", "CHA"], ["s", "A1"], ["s", "A2"], ["s", "OBSV"]]
+        vars_.append({"n": "CHB", "kind": "choice", "cands": [NOVAL, "B2"]})
+        vars_.append({"n": "CHA", "kind": "choice", "cands": [NOVAL, "A1", "A2"]})
+        out.append({"prog": ents, "ord": order, "vars": vars_, "family": "F-choice", "point": dict(two=True, forward=fwd, via=via, defaults=dflt, gated=gated)})
     return out
 
 
